@@ -13,7 +13,7 @@ from __future__ import annotations
 import sys
 from typing import List, Optional
 
-from vf.api import Obligation, Skip, viol
+from vf.api import Obligation, Skip, concretely, viol
 from vf.session import load_session
 
 XSH = load_session()
@@ -259,6 +259,47 @@ def ob_spec(n: int, k0: int, k1: int, k2: int, k3: int, h0: int, h1: int, h2: in
     return None
 
 
+# ----------------------------------------------------------------------------
+# string aliases as the user defines them (Aliases.__setitem__): plain word lists keep the user's arguments
+# ----------------------------------------------------------------------------
+# (body, is a plain command with arguments)  - plain bodies hold "and"/"or" only inside words
+STRING_BODIES = [
+    ("ls -l", True), ("echo --stop-and-wait", True), ("echo this-or-that", True), ("echo a.or.b", True), ("grep x=and y", True),
+    ("echo and/or", True), ("echo sand orb", True), ("echo -and", True), ("echo or-", True), ("make --and=1 --or", True),
+    ("echo a and echo b", False), ("echo a or echo b", False), ("echo a && echo b", False), ("ls | wc", False), ("echo hi > f", False),
+    ("echo $(date)", False),
+]
+
+
+def _string_alias(i, nargs):
+    body, plain = STRING_BODIES[i]
+    al = A.Aliases()
+    al["vfs"] = body
+    args = ["u0", "u1"][:nargs]
+    decs: List = []
+    got = al.get(["vfs"] + args, None, decorators=decs)
+    if plain:
+        want = body.split() + args
+        if got is None or [str(x) for x in got] != want or any(callable(x) for x in got):
+            shown = [x if isinstance(x, str) else type(x).__name__ for x in (got or [])]
+            return (f"string-alias-arguments: aliases['vfs'] = {body!r}; `vfs {' '.join(args)}` resolves to {shown}, expected {want} "
+                    f"(a plain command with arguments: the user's arguments follow the alias's own)")
+    else:
+        if got is None or not callable(got[0]):
+            return f"string-alias-kind: aliases['vfs'] = {body!r} holds shell operators but resolves to the plain list {got}"
+    return None
+
+
+def ob_string_alias(i: int, nargs: int) -> Optional[str]:
+    if not (0 <= i < len(STRING_BODIES) and 0 <= nargs <= 2):
+        raise Skip()
+    r = concretely(_string_alias, _pick(list(range(len(STRING_BODIES))), i), _pick([0, 1, 2], nargs))
+    if r:
+        k, rest = r.split(":", 1)
+        return viol(k, lambda: rest.strip())
+    return None
+
+
 def _kind_parts(n, extra=({},), kinds=None):
     import itertools
 
@@ -299,4 +340,8 @@ OBLIGATIONS = [
                                   + _kind_parts(3, [dict(t0=1, t1=1, t2=1, in_stack=False, lead=1)], _CHAIN)},
                timeout={"quick": 240, "thorough": 1800},
                symbolic="as alias_get plus leading decorators"),
+    Obligation("string_alias", ob_string_alias,
+               bounds=f"{len(STRING_BODIES)} alias strings defined through Aliases.__setitem__ (plain commands whose words contain and/or next to punctuation, "
+                      "and bodies with real shell operators), invoked with 0..2 user arguments",
+               pre=["0 <= i < 40", "0 <= nargs <= 2"], timeout={"quick": 120, "thorough": 120}, symbolic="body index, number of arguments"),
 ]
